@@ -97,6 +97,9 @@ func fuzzSeeds(tg *target) [][]byte {
 	}
 	o := append([][]byte(nil), tg.seeds()...)
 	o = append(o, repoPackets[tg.name]...)
+	if tg.dictSeeds != nil {
+		o = append(o, tg.dictSeeds()...)
+	}
 	g := rapid.Custom(tg.gen)
 	for i := 0; i < 256; i++ {
 		o = append(o, g.Example(i))
